@@ -53,14 +53,14 @@ func reaches(from, to ssa.Instruction) bool {
 // Registry access inventory.
 
 type regAccess struct {
-	Fn    *ssa.Function
-	In    ssa.Instruction
-	Kind  string    // lookup, update, delete, replace (store to the map field), range, len
-	Map   ssa.Value // the loaded map value (nil for replace)
-	Key   ssa.Value // map key (nil for replace/range)
-	Shard ssa.Value // the shard value the map belongs to
-	Val   ssa.Value // stored value for update/replace
-	Via   string    // helper function the access physically sits in ("" = in Fn itself)
+	Fn     *ssa.Function
+	In     ssa.Instruction
+	Kind   string          // lookup, update, delete, replace (store to the map field), range, len
+	Map    ssa.Value       // the loaded map value (nil for replace)
+	Key    ssa.Value       // map key (nil for replace/range)
+	Shard  ssa.Value       // the shard value the map belongs to
+	Val    ssa.Value       // stored value for update/replace
+	Via    string          // helper function the access physically sits in ("" = in Fn itself)
 	Home   *ssa.Function   // function the access physically sits in
 	HomeIn ssa.Instruction // the access instruction itself
 	SKind  string          // how the shard was selected: fn / array / alloc / ""
@@ -137,7 +137,82 @@ func registryAccesses(p *Prog, R *BusRoles) []regAccess {
 		a.SKind, a.SKey, a.SIdx = R.shardOrigin(a.Shard)
 		lift(a, 0)
 	}
-	return out
+	// a key read back from the registration (h.eventType) is classified by what that
+	// field is assigned anywhere in the package
+	regKeyField = func(typ, field string) string {
+		if R.RegT == nil || typ != R.RegT.Obj().Name() {
+			return ""
+		}
+		res := ""
+		saved := regKeyField
+		regKeyField = nil // no recursion through the field itself
+		defer func() { regKeyField = saved }()
+		n := 0
+		for _, f := range p.FuncsIn(PkgBus) {
+			for _, b := range f.Blocks {
+				for _, in := range b.Instrs {
+					st, ok := in.(*ssa.Store)
+					if !ok {
+						continue
+					}
+					if tn, fld, _, ok := fieldOfAddr(st.Addr); !ok || tn != typ || fld != field {
+						continue
+					}
+					n++
+					vals := []ssa.Value{st.Val}
+					if pv, ok := stripConv(st.Val).(*ssa.Parameter); ok {
+						vals = ix.argFor(pv)
+					}
+					for _, v := range vals {
+						o := typeKeyOrigin(v)
+						if i := strings.Index(o, ":"); i >= 0 {
+							o = o[:i]
+						}
+						switch {
+						case o == "":
+							return ""
+						case res == "":
+							res = o
+						case res != o:
+							return ""
+						}
+					}
+				}
+			}
+		}
+		if n == 0 || res == "" {
+			return ""
+		}
+		return res + ":registration-field"
+	}
+	// an access that could not be lifted out of a helper (its key is read from an object,
+	// not a parameter) is attributed to every exported API function that reaches the helper
+	apiReach := map[*ssa.Function][]*ssa.Function{}
+	for _, f := range p.FuncsIn(PkgBus) {
+		if f.Parent() != nil || f.Object() == nil || !f.Object().Exported() || f.Signature.Recv() != nil && !f.Object().Exported() {
+			continue
+		}
+		for _, g := range reachFuncs(p, f, PkgBus) {
+			if g != f {
+				apiReach[g] = append(apiReach[g], f)
+			}
+		}
+	}
+	var extra []regAccess
+	for _, a := range out {
+		if a.Fn.Parent() != nil {
+			continue
+		}
+		for _, api := range apiReach[a.Fn] {
+			na := a
+			if na.Via == "" {
+				na.Via = FuncDisplay(a.Fn)
+			}
+			na.Fn = api
+			extra = append(extra, na)
+		}
+	}
+	return append(out, extra...)
 }
 
 func registryAccessesRaw(p *Prog, R *BusRoles) []regAccess {
@@ -185,8 +260,18 @@ func registryAccessesRaw(p *Prog, R *BusRoles) []regAccess {
 // typeKeyOrigin classifies how a reflect.Type key was produced: "static:T" for
 // reflect.TypeOf((*T)(nil)).Elem(), "dynamic:T" for reflect.TypeOf(x) with x of type
 // parameter type T, "param" for a reflect.Type parameter, "" otherwise.
+// regKeyField, when set (by registryAccesses), names the registration struct type and
+// classifies a reflect.Type-typed field of it: a key read back from the registration is as
+// good as the values that field is ever assigned.
+var regKeyField func(typ, field string) string
+
 func typeKeyOrigin(v ssa.Value) string {
 	v = stripConv(v)
+	if tn, fld, _, ok := fieldLoad(v); ok && regKeyField != nil && isNamed(v.Type(), "reflect", "Type") {
+		if o := regKeyField(tn, fld); o != "" {
+			return o
+		}
+	}
 	switch x := v.(type) {
 	case *ssa.Parameter:
 		if isNamed(x.Type(), "reflect", "Type") {
@@ -236,7 +321,12 @@ func (R *BusRoles) shardOrigin(v ssa.Value) (kind string, key ssa.Value, idx ssa
 	case *ssa.UnOp:
 		if x.Op == token.MUL {
 			if ia, ok := x.X.(*ssa.IndexAddr); ok {
-				if tn, fld, _, ok := fieldOfAddr(ia.X); ok && tn == "EventBus" && fld == R.BusShards {
+				arr := ia.X
+				// the whole array re-sliced (bus.shards[:]) indexes the same elements
+				if sl, ok := arr.(*ssa.Slice); ok && sl.Low == nil && sl.High == nil && sl.Max == nil {
+					arr = sl.X
+				}
+				if tn, fld, _, ok := fieldOfAddr(arr); ok && tn == "EventBus" && fld == R.BusShards {
 					return "array", nil, ia.Index
 				}
 			}
@@ -422,59 +512,74 @@ func checkShardFunction(c *Ctx, p *Prog, R *BusRoles, rule string) {
 	ok := true
 	var idxExpr ssa.Value
 	loads := 0
-	for _, b := range f.Blocks {
-		for _, in := range b.Instrs {
-			switch x := in.(type) {
-			case *ssa.Call:
-				n := calleeName(x.Common())
-				if _, isB := x.Common().Value.(*ssa.Builtin); isB {
-					continue
-				}
-				if !pure[n] {
-					ok = false
-					c.Violate(rule, "shard-fn/effects/"+n, p.Pos(in.Pos()), "the shard function calls "+n+", which is not in the table of pure hashing helpers: the same type might not always map to the same shard", nil)
-				}
-				if x.Common().IsInvoke() && strings.HasPrefix(n, "invoke:Type.") {
-					if _, isParam := stripConv(x.Common().Value).(*ssa.Parameter); !isParam {
-						ok = false
-						c.Violate(rule, "shard-fn/hash-input", p.Pos(in.Pos()), "the hashed name is not taken from the event type parameter", nil)
-					}
-				}
-			case *ssa.IndexAddr:
-				if tn, fld, _, okf := fieldOfAddr(x.X); okf && tn == "EventBus" && fld == R.BusShards {
-					idxExpr = x.Index
-					loads++
-				} else if _, isAlloc := x.X.(*ssa.Alloc); !isAlloc {
-					ok = false
-					c.Violate(rule, "shard-fn/effects/index", p.Pos(in.Pos()), "the shard function indexes something other than the shard array", nil)
-				}
-			case *ssa.UnOp:
-				if x.Op == token.MUL {
-					if g, isG := x.X.(*ssa.Global); isG {
-						ok = false
-						c.Violate(rule, "shard-fn/effects/global", p.Pos(in.Pos()), "the shard function reads package-level state "+g.Name(), nil)
-					}
-					if tn, fld, _, okf := fieldOfAddr(x.X); okf && !(tn == "EventBus" && fld == R.BusShards) {
-						ok = false
-						c.Violate(rule, "shard-fn/effects/field", p.Pos(in.Pos()), "the shard function reads mutable state "+tn+"."+fld, nil)
-					}
-				}
-			case *ssa.Store, *ssa.MapUpdate, *ssa.Go, *ssa.Defer, *ssa.Send:
-				if st, isSt := in.(*ssa.Store); isSt {
-					if _, isAlloc := st.Addr.(*ssa.Alloc); isAlloc {
+	scanned := map[*ssa.Function]bool{}
+	var scanFn func(g *ssa.Function, depth int)
+	scanFn = func(g *ssa.Function, depth int) {
+		if scanned[g] || depth > 3 {
+			return
+		}
+		scanned[g] = true
+		for _, b := range g.Blocks {
+			for _, in := range b.Instrs {
+				switch x := in.(type) {
+				case *ssa.Call:
+					n := calleeName(x.Common())
+					if _, isB := x.Common().Value.(*ssa.Builtin); isB {
 						continue
 					}
-					if ia, isIA := st.Addr.(*ssa.IndexAddr); isIA {
-						if _, isAlloc := ia.X.(*ssa.Alloc); isAlloc {
-							continue
+					// a helper of the package (the hash moved into its own function) is held
+					// to the same purity rules
+					if sc := x.Common().StaticCallee(); sc != nil && PkgOf(sc) == PkgBus && len(sc.Blocks) > 0 && !x.Common().IsInvoke() {
+						scanFn(sc, depth+1)
+						continue
+					}
+					if !pure[n] {
+						ok = false
+						c.Violate(rule, "shard-fn/effects/"+n, p.Pos(in.Pos()), "the shard function calls "+n+", which is not in the table of pure hashing helpers: the same type might not always map to the same shard", nil)
+					}
+					if x.Common().IsInvoke() && strings.HasPrefix(n, "invoke:Type.") {
+						if _, isParam := stripConv(x.Common().Value).(*ssa.Parameter); !isParam {
+							ok = false
+							c.Violate(rule, "shard-fn/hash-input", p.Pos(in.Pos()), "the hashed name is not taken from the event type parameter", nil)
 						}
 					}
+				case *ssa.IndexAddr:
+					if tn, fld, _, okf := fieldOfAddr(x.X); okf && tn == "EventBus" && fld == R.BusShards {
+						idxExpr = x.Index
+						loads++
+					} else if _, isAlloc := x.X.(*ssa.Alloc); !isAlloc {
+						ok = false
+						c.Violate(rule, "shard-fn/effects/index", p.Pos(in.Pos()), "the shard function indexes something other than the shard array", nil)
+					}
+				case *ssa.UnOp:
+					if x.Op == token.MUL {
+						if g, isG := x.X.(*ssa.Global); isG {
+							ok = false
+							c.Violate(rule, "shard-fn/effects/global", p.Pos(in.Pos()), "the shard function reads package-level state "+g.Name(), nil)
+						}
+						if tn, fld, _, okf := fieldOfAddr(x.X); okf && !(tn == "EventBus" && fld == R.BusShards) {
+							ok = false
+							c.Violate(rule, "shard-fn/effects/field", p.Pos(in.Pos()), "the shard function reads mutable state "+tn+"."+fld, nil)
+						}
+					}
+				case *ssa.Store, *ssa.MapUpdate, *ssa.Go, *ssa.Defer, *ssa.Send:
+					if st, isSt := in.(*ssa.Store); isSt {
+						if _, isAlloc := st.Addr.(*ssa.Alloc); isAlloc {
+							continue
+						}
+						if ia, isIA := st.Addr.(*ssa.IndexAddr); isIA {
+							if _, isAlloc := ia.X.(*ssa.Alloc); isAlloc {
+								continue
+							}
+						}
+					}
+					ok = false
+					c.Violate(rule, "shard-fn/effects/write", p.Pos(in.Pos()), "the shard function has a side effect ("+in.String()+")", nil)
 				}
-				ok = false
-				c.Violate(rule, "shard-fn/effects/write", p.Pos(in.Pos()), "the shard function has a side effect ("+in.String()+")", nil)
 			}
 		}
 	}
+	scanFn(f, 0)
 	if loads != 1 {
 		ok = false
 		c.Violate(rule, "shard-fn/one-array-load", pos, fmt.Sprintf("the shard function indexes the shard array %d times (want exactly once)", loads), nil)
@@ -490,6 +595,15 @@ func checkShardFunction(c *Ctx, p *Prog, R *BusRoles, rule string) {
 			}
 		}
 	}
+	// the index may be computed by a helper of the package: look at what it returns
+	if call, isCall := stripConv(idxExpr).(*ssa.Call); isCall && idxExpr != nil {
+		if sc := call.Common().StaticCallee(); sc != nil && PkgOf(sc) == PkgBus {
+			rets := returnsOf(sc)
+			if len(rets) == 1 && len(rets[0].Results) == 1 {
+				idxExpr = rets[0].Results[0]
+			}
+		}
+	}
 	if idxExpr != nil {
 		inRange, why := indexInRange(idxExpr, arrLen)
 		if !inRange {
@@ -502,8 +616,10 @@ func checkShardFunction(c *Ctx, p *Prog, R *BusRoles, rule string) {
 	if ok {
 		c.Discharge(rule, "shard-fn/pure-function-of-type", pos, "only pure hashing helpers on the type's name and one load of a shard array element; no other shared state is read or written")
 	}
-	// the shard array elements are written only while the bus is constructed
+	// the shard array elements are written only while the bus is constructed (the bus is an
+	// object allocated by the writing function, or by every caller of the writing helper)
 	n := 0
+	ixShard := newIPIndex(p)
 	for _, g := range p.FuncsIn(PkgBus) {
 		for _, b := range g.Blocks {
 			for _, in := range b.Instrs {
@@ -517,7 +633,7 @@ func checkShardFunction(c *Ctx, p *Prog, R *BusRoles, rule string) {
 				}
 				if tn, fld, base, okf := fieldOfAddr(ia.X); okf && tn == "EventBus" && fld == R.BusShards {
 					n++
-					if _, fresh := stripConv(base).(*ssa.Alloc); fresh && g.Name() == "New" {
+					if freshRegistration(ixShard, base, 0) {
 						c.Discharge(rule, "shard-array/writer/"+FuncDisplay(g), p.Pos(in.Pos()), "shard array element written during construction only")
 					} else {
 						c.Violate(rule, "shard-array/writer/"+FuncDisplay(g), p.Pos(in.Pos()), "a shard array element is replaced outside the constructor: registrations in the old shard are lost and concurrent readers race", nil)
